@@ -813,15 +813,15 @@ pub fn generate(rng: &mut Rng, tier: Tier, emit: &mut dyn FnMut(String)) {
     for _ in 0..reps {
         for pol in pols {
             let (alpha, max_len): (&[&str], usize) = match pol {
-                Pol::Default => (&PREFIX_DEFAULT, if quick { 2 } else { 3 }),
-                Pol::Downgrading => (&PREFIX_DOWNGRADING, if quick { 1 } else { 3 }),
+                Pol::Default => (&PREFIX_DEFAULT, 3),
+                Pol::Downgrading => (&PREFIX_DOWNGRADING, if quick { 2 } else { 3 }),
                 Pol::Fallthrough => (&PREFIX_FALLTHROUGH, 1),
             };
             let mut pres = prefixes(alpha, max_len);
-            if quick {
+            if quick && pol == Pol::Downgrading {
                 // a sample of the longer prefixes
                 let longer = prefixes(alpha, 3);
-                for _ in 0..6 {
+                for _ in 0..10 {
                     pres.push(rng.pick(&longer).clone());
                 }
             }
@@ -840,7 +840,7 @@ pub fn generate(rng: &mut Rng, tier: Tier, emit: &mut dyn FnMut(String)) {
         }
     }
     // random longer histories through one session (random consistencies at every step)
-    for _ in 0..(if quick { 3000 } else { 60000 }) {
+    for _ in 0..(if quick { 20000 } else { 300000 }) {
         let pol = *rng.pick(&pols);
         let classes = err_classes(rng);
         let len = rng.range(1, 7) as usize;
@@ -882,6 +882,9 @@ pub fn generate(rng: &mut Rng, tier: Tier, emit: &mut dyn FnMut(String)) {
                         if pol == Pol::Fallthrough && s.len() > 1 && quick {
                             continue;
                         }
+                        if !plan.iter().any(|ok| *ok) && !s.is_empty() {
+                            continue; // nothing is ever sent: one case per plan is enough
+                        }
                         emit(format!("run {}/{} {}/{} {}", pol.name(), idem, cl, plan_str(&plan), list_or_dash(s.iter().map(|x| x.to_string()).collect(), ";")));
                     }
                 }
@@ -918,22 +921,36 @@ pub fn generate(rng: &mut Rng, tier: Tier, emit: &mut dyn FnMut(String)) {
             }
         }
     }
-    // random histories: plans of 0..5 targets incl. connection failures, outcomes of length <= plan + 3
-    for _ in 0..(if quick { 25000 } else { 500000 }) {
+    // random histories: plans of 0..5 targets incl. connection failures, outcomes of length <= plan + 3.
+    // Half of them draw mostly from the errors after which a retry is plausible (long runs).
+    const FRIENDLY_IDEM: [&str; 12] = [
+        "broken", "db.overloaded", "db.server", "db.truncate", "db.bootstrapping", "alloc", "db.unavailable.2.3",
+        "db.unavailable.1.1", "db.readtimeout.2.2.0", "db.readtimeout.1.3.1", "db.writetimeout.0.1.batchlog",
+        "db.writetimeout.2.3.unlogged",
+    ];
+    const FRIENDLY_NONIDEM: [&str; 8] = [
+        "db.bootstrapping", "alloc", "db.unavailable.2.3", "db.unavailable.3.4", "db.unavailable.0.1",
+        "db.readtimeout.2.2.0", "db.readtimeout.1.3.1", "db.readtimeout.0.1.0",
+    ];
+    for _ in 0..(if quick { 120000 } else { 2000000 }) {
         let pol = match rng.below(7) {
             0 => Pol::Fallthrough,
             1..=3 => Pol::Default,
             _ => Pol::Downgrading,
         };
-        let plan_len = rng.below(6) as usize;
-        let plan: Vec<bool> = (0..plan_len).map(|_| !rng.chance(1, 4)).collect();
+        let idem = rng.chance(2, 5);
+        let friendly = rng.bool();
+        let plan_len = if friendly { rng.range(1, 5) as usize } else { rng.below(6) as usize };
+        let plan: Vec<bool> = (0..plan_len).map(|_| !rng.chance(1, if friendly { 6 } else { 4 })).collect();
         let cl0 = if rng.chance(1, 8) { *rng.pick(&["serial", "localserial"]) } else { rng.pick(&CLS).0 };
-        let len = rng.below(plan_len as u64 + 4) as usize;
+        let len = if friendly { plan_len + 3 - rng.below(2) as usize } else { rng.below(plan_len as u64 + 4) as usize };
         let classes = err_classes(rng);
         let outs: Vec<String> = (0..len)
             .map(|i| {
                 if i + 1 == len && rng.chance(1, 3) {
                     "ok".to_string()
+                } else if friendly && !rng.chance(1, 6) {
+                    if idem { rng.pick(&FRIENDLY_IDEM).to_string() } else { rng.pick(&FRIENDLY_NONIDEM).to_string() }
                 } else {
                     match rng.below(10) {
                         0..=5 => rng.pick(&ALPHABET[1..]).to_string(),
@@ -946,7 +963,7 @@ pub fn generate(rng: &mut Rng, tier: Tier, emit: &mut dyn FnMut(String)) {
         emit(format!(
             "run {}/{} {}/{} {}",
             pol.name(),
-            if rng.chance(2, 5) { "i" } else { "n" },
+            if idem { "i" } else { "n" },
             cl0,
             plan_str(&plan),
             list_or_dash(outs, ";")
